@@ -103,3 +103,17 @@ Theorem C12_main : forall ol, In ol (leaves GenRouteSites.sites) ->
         ~ In (lower c) (snd (spec_avail SpecAvailability.table path)))).
 Proof. exact avail_main. Qed.
 Print Assumptions C12_main.
+
+(* ---- the verdict does not depend on where inside the value the name occurs:
+   a context that is not available at the key is reported at every position of
+   an expression the checker visits (Expr/SemaVisit.v: every sub-expression
+   except the arguments of an undefined function) *)
+From AL Require Base.AList Expr.Types Expr.Sema Expr.SemaVisit.
+
+Theorem C12_unavailable_context_reported_at_every_position :
+  forall (mg : Types.ty -> Types.ty -> Types.ty) (fa : bool) (E : Sema.env) e nw p name t,
+  SemaVisit.reach E e (Ast.EVar p name) -> AList.lookup name (Sema.e_vars E) = Some t ->
+  Sema.mem (Str.lower name) (Sema.e_avail E) = false ->
+  In (Sema.mkdiag p Sema.DCtxNotAllowed) (snd (Sema.chk mg fa E nw e)).
+Proof. exact SemaVisit.unavailable_context_reported. Qed.
+Print Assumptions C12_unavailable_context_reported_at_every_position.
